@@ -5,6 +5,9 @@
  * request:  <init> <op> <op> ...
  *   <init>  hex of the file content read into the fresh buffer ("-" = empty file); the probe does
  *           what ec_edit does: lbuf_edit(lb, content, 0, 0); lbuf_saved(lb, 1)
+ *           "@" = the buffer the editor starts with when NO file name is given (ec_edit with an empty
+ *           path: bufs_open(""), open("") fails, nothing is read): lbuf_make(); lbuf_saved(lb, 0) --
+ *           the history was never cleared, useq_last is still 0
  *   E<b>,<e>,<t>  lbuf_edit(lb, t, b, e); t = hex, "-" = "" (empty string), "N" = NULL
  *   M  lbuf_modified(lb)   U  lbuf_undo(lb)   R  lbuf_redo(lb)
  *   S  lbuf_saved(lb, 0)   K  lbuf_saved(lb, 1)   P  lbuf_unsaved(lb)
@@ -47,10 +50,14 @@ int main(void)
 			continue;
 		}
 		probe_xb = lb;
-		init = pu_unhex(w[0], NULL, 0, 1);
-		lbuf_edit(lb, init, 0, 0);
-		lbuf_saved(lb, 1);
-		free(init);
+		if (!strcmp(w[0], "@")) {
+			lbuf_saved(lb, 0);
+		} else {
+			init = pu_unhex(w[0], NULL, 0, 1);
+			lbuf_edit(lb, init, 0, 0);
+			lbuf_saved(lb, 1);
+			free(init);
+		}
 		for (i = 1; i < n; i++) {
 			char *o = w[i];
 			int rc = 0;
